@@ -132,6 +132,10 @@ enum Workload {
     /// configured with a much longer timeout (15 s): clients sharing one channel must not
     /// inherit each other's patience
     ConcurrentWarmMixed,
+    /// three calls *prepared* first (`send` returns a lazy future; nothing travels until it is
+    /// awaited) and awaited one after the other: a call's timeout is its own, counted from
+    /// the moment it is driven, not from the moment it was built
+    Prepared,
 }
 
 /// The timeout of the patient sibling in `ConcurrentWarmMixed` (request id 2).
@@ -200,7 +204,6 @@ async fn call_with_reply(client: &RpcClient<Svc>, id: u32, pad: usize, reply_pad
 
 async fn call_full(client: &RpcClient<Svc>, id: u32, pad: usize, reply_pad: usize, owned: bool) -> CallResult {
     let padding: Vec<u8> = (0..pad).map(|i| (i % 251) as u8).collect();
-    let want_sum: u64 = padding.iter().map(|b| *b as u64).sum();
     let start = tokio::time::Instant::now();
     // a harness-side cap so that a request without client timeout that never completes
     // (its segments were dropped by a partition) does not block the simulation
@@ -210,6 +213,17 @@ async fn call_full(client: &RpcClient<Svc>, id: u32, pad: usize, reply_pad: usiz
     } else {
         tokio::time::timeout(Duration::from_secs(20), client.send(&ask)).await
     };
+    finish_call(id, pad, reply_pad, start, res)
+}
+
+fn finish_call(
+    id: u32,
+    pad: usize,
+    reply_pad: usize,
+    start: tokio::time::Instant,
+    res: Result<Result<datacake_rpc::MessageReply<Svc, Ask>, datacake_rpc::Status>, tokio::time::error::Elapsed>,
+) -> CallResult {
+    let want_sum: u64 = (0..pad).map(|i| (i % 251) as u64).sum();
     let elapsed_ms = start.elapsed().as_millis() as u64;
     let (outcome, padding_ok) = match res {
         Err(_) => ("no-answer".to_string(), true),
@@ -287,6 +301,16 @@ fn run_sim(sc: &Scenario) -> Outcome {
                         let r = call_full(c.as_ref().unwrap_or(&client), id, 16, 0, owned).await;
                         results.lock().unwrap().push(r);
                         tokio::time::sleep(Duration::from_millis(300)).await;
+                    }
+                },
+                Workload::Prepared => {
+                    let asks: Vec<Ask> = (1..=3u32).map(|id| Ask { id, padding: (0..16usize).map(|i| (i % 251) as u8).collect(), reply_pad: 0 }).collect();
+                    let clients: Vec<RpcClient<Svc>> = (0..3).map(|_| client.clone()).collect();
+                    let prepared: Vec<_> = clients.iter().zip(&asks).map(|(c, a)| c.send(a)).collect();
+                    for (fut, ask) in prepared.into_iter().zip(&asks) {
+                        let start = tokio::time::Instant::now();
+                        let res = tokio::time::timeout(Duration::from_secs(20), fut).await;
+                        results.lock().unwrap().push(finish_call(ask.id, 16, 0, start, res));
                     }
                 },
                 Workload::ConcurrentFresh => {
@@ -452,7 +476,7 @@ fn all_scenarios(tier: Tier) -> (Vec<Scenario>, usize, usize) {
     let max_faults = tier.pick(1, 2);
     let scripts = scripts(max_faults);
     let mut scenarios = Vec::new();
-    let mut workloads = vec![Workload::Sequential, Workload::ConcurrentFresh, Workload::ConcurrentWarm, Workload::Large, Workload::SequentialOwned, Workload::ConcurrentWarmOwned, Workload::ConcurrentWarmMixed];
+    let mut workloads = vec![Workload::Sequential, Workload::ConcurrentFresh, Workload::ConcurrentWarm, Workload::Large, Workload::SequentialOwned, Workload::ConcurrentWarmOwned, Workload::ConcurrentWarmMixed, Workload::Prepared];
     for v in 0..LARGE_REPLY_VARIANTS.len() {
         workloads.push(Workload::LargeReplies(v as u8));
     }
@@ -461,7 +485,7 @@ fn all_scenarios(tier: Tier) -> (Vec<Scenario>, usize, usize) {
     }
     for workload in workloads {
         let big = matches!(workload, Workload::Large | Workload::LargeReplies(_) | Workload::UnreadStream(_));
-        let delays: &[u64] = if big { &[0] } else { &[0, 500, 3000] };
+        let delays: &[u64] = if big { &[0] } else if workload == Workload::Prepared { &[0, 500, 900, 3000] } else { &[0, 500, 3000] };
         for &delay_ms in delays {
             for with_timeout in [true, false] {
                 if workload == Workload::ConcurrentWarmMixed && !with_timeout {
@@ -563,7 +587,7 @@ fn judge(sc: &Scenario, out: &Outcome, st: &mut Stats) {
         return;
     }
     let expected_calls = match sc.workload {
-        Workload::Sequential | Workload::SequentialOwned => 3,
+        Workload::Sequential | Workload::SequentialOwned | Workload::Prepared => 3,
         Workload::ConcurrentFresh => 2,
         Workload::ConcurrentWarm | Workload::ConcurrentWarmOwned | Workload::ConcurrentWarmMixed => 4,
         Workload::Large => 1,
@@ -749,6 +773,7 @@ fn replay(case: &J) -> i32 {
     let sc = Scenario {
         workload: match case.get("workload").and_then(|v| v.as_str()) {
             Some("ConcurrentFresh") => Workload::ConcurrentFresh,
+            Some("Prepared") => Workload::Prepared,
             Some("SequentialOwned") => Workload::SequentialOwned,
             Some("ConcurrentWarmOwned") => Workload::ConcurrentWarmOwned,
             Some("ConcurrentWarmMixed") => Workload::ConcurrentWarmMixed,
